@@ -50,11 +50,14 @@ func c15Content(f, cid int, valid, layoutScenario bool) string {
 	switch f {
 	case 0:
 		fm := fmt.Sprintf("---\nv: %d\nodd: %v\nst: early%d\n", cid, cid%2 == 1, cid)
+		if cid%2 == 0 { // a key only every other version has: when it is gone from the file it is gone from the render
+			fm += fmt.Sprintf("extra: x%d\n", cid)
+		}
 		if layoutScenario {
 			fm += "layout: lay\n"
 		}
 		// elements whose evaluation writes attributes, driven by a front-matter value that changes from version to version
-		body := fmt.Sprintf("<p>P%d v={{ v }}</p><template include=\"comp.vuego\"></template>", c15Body(cid)) + c15Toggles +
+		body := fmt.Sprintf("<p>P%d v={{ v }}</p><template include=\"comp.vuego\"></template><small>x={{ extra }};</small>", c15Body(cid)) + c15Toggles +
 			// a variable of the front-matter is read, then assigned at the page's root scope: the assignment belongs to this render only
 			`<u>{{ st }}</u><template st="late" :v2="v"></template><u>{{ st }}</u>`
 		if layoutScenario { // a named slot handed to the layout: its nodes must not be shared with the cache
@@ -108,6 +111,7 @@ func (o c15Op) Desc() string {
 
 var c15P = regexp.MustCompile(`P(\d+) v=(\d*)`)
 var c15C = regexp.MustCompile(`C(\d+)`)
+var c15X = regexp.MustCompile(`x=([^;]*);`)
 var c15L = regexp.MustCompile(`L(\d+)`)
 
 func c15Render(cfs fs.FS, vue *vuego.Vue, tpl vuego.Template, entry string) (out string, err error, pan string) {
@@ -145,6 +149,21 @@ func c15Project(out string, err error, reads map[string]int) Obs {
 			fmt.Sscan(m[2], &v)
 			if m[2] == "" || fmt.Sprint(c15Body(v)) != m[1] {
 				return A(m[1] + "/v" + m[2])
+			}
+			wantX := ""
+			if v%2 == 0 {
+				wantX = fmt.Sprintf("x%d", v)
+			}
+			if x := c15X.FindStringSubmatch(out); x == nil || x[1] != wantX {
+				// outside the freshness guard (zero or repeated modification times) Load may read a newer version's
+				// front matter than the cache serves: a key of a NEWER version showing through is that mix, not a leftover
+				var k int
+				if x != nil && v%2 == 1 {
+					if _, err := fmt.Sscanf(x[1], "x%d", &k); err == nil && k%1000 > v%1000 {
+						return A(m[2])
+					}
+				}
+				return A(m[2] + "/extra=" + fmt.Sprint(x))
 			}
 			return A(m[2])
 		}
